@@ -26,6 +26,8 @@ type vfScenCase struct {
 	Sock vfSockCase `json:"sock"`
 	// C04
 	HugeDisk   bool  `json:"huge_min_disk,omitempty"` // min-disk-space-mb = twice the space that is free right now
+	// HugeDiskMB (with HugeDisk): the setting itself, for values no disk can have (2^40 .. 2^62 MB, +1)
+	HugeDiskMB int64 `json:"huge_min_disk_mb,omitempty"`
 	HalfDisk   bool  `json:"half_min_disk,omitempty"` // min-disk-space-mb = half the space that is free right now
 	MidDisk    bool  `json:"mid_min_disk,omitempty"`  // min-disk-space-mb between the space available to the daemon and the space free incl. the root reserve
 	SplitAt    int   `json:"split_at,omitempty"`      // item index at which the camera reconnects (0: single connection)
@@ -85,6 +87,8 @@ func vfRunScen(c vfScenCase) *vfScenOut {
 		free := int64(fs.Bavail*uint64(fs.Bsize)) / 1024 / 1024
 		withReserve := int64(fs.Bfree*uint64(fs.Bsize)) / 1024 / 1024
 		switch {
+		case c.HugeDisk && c.HugeDiskMB > 2*free+10:
+			conf.MinDiskMB = c.HugeDiskMB
 		case c.HugeDisk:
 			conf.MinDiskMB = 2*free + 10
 		case c.MidDisk && withReserve > free+free/20:
@@ -311,6 +315,9 @@ func vfGenC04E2E(t *rapid.T) vfScenCase {
 			c.HalfDisk = true
 		case 1:
 			c.HugeDisk = true
+			if rapid.Bool().Draw(t, "astronomic") {
+				c.HugeDiskMB = int64(1)<<uint(rapid.SampledFrom([]int{40, 43, 44, 45, 52, 53, 62}).Draw(t, "log2mb")) + int64(rapid.IntRange(0, 1).Draw(t, "plus1"))
+			}
 		default:
 			c.MidDisk = true
 		}
